@@ -25,8 +25,24 @@ def main():
     res = common.Result(prop, a.tier, a.seed, level=getattr(mod, 'LEVEL', 'model_checking'))
     try:
         common.import_desper()
-        if a.replay:
+        if a.replay and hasattr(mod, 'replay'):
             mod.replay(res, a.replay)
+        elif a.replay:
+            import json
+            from . import replay as rp
+            rp.REPLAY = dict(json.load(open(a.replay))['detail'])
+            if 'labels' not in rp.REPLAY:
+                print('REPLAY: this file holds a rejected recorded trace, not a specification behaviour; '
+                      're-run the check to re-record (seed %s)' % json.load(open(a.replay)).get('seed'))
+                return 2
+            try:
+                mod.run(res)
+            except common.ReplayDone:
+                pass
+            if not rp.REPLAY.get('done'):
+                print('REPLAY: the recorded history is not a behaviour of any instance this check builds')
+                return 2
+            res.evidence_suffix = '.replay'
         else:
             mod.run(res)
     except common.MachineryError as ex:
